@@ -302,19 +302,32 @@ PRE20 = ("c++14", "c++17")
 
 
 def known_ill_formed():
+    """id -> (predicate(cxx, std), reason)"""
     k = {}
-    why_copy = "xclosure_wrapper's value constructor copies (get_storage_init returns a named rvalue reference): needs C++20 implicit move"
+    why_copy = ("xclosure_wrapper's value constructor copies (get_storage_init returns a named rvalue reference): a move-only payload needs the "
+                "implicit move of rvalue-reference parameters, which g++ applies from -std=c++20 on and clang++ in every mode")
     why_const = "const_closure_type_t<const T> is T, and xclosure_wrapper<T>/xclosure_pointer<T> have no constructor taking a const rvalue"
-    for lab in ("T(prvalue)", "T&&"):
-        k["closure(MoveOnly %s)" % lab] = (PRE20, why_copy)
-        k["const_closure(MoveOnly %s)" % lab] = (PRE20, why_copy)
-    for T in ("int", "Counted", "int*"):
-        k["const_closure(%s const T&&)" % T] = (ALL_STD, why_const)
-        k["const_closure_pointer(%s const T&&)" % T] = (ALL_STD, why_const)
     why_assign = "the wrapper has reference members, its implicitly declared copy assignment operator is deleted and is selected for an argument of the same type"
+
+    def gcc_pre20(cxx, std):
+        return cxx.startswith("g++") and std in PRE20
+
+    def always(cxx, std):
+        return True
+
+    for lab in ("T(prvalue)", "T&&"):
+        k["closure(MoveOnly %s)" % lab] = (gcc_pre20, why_copy)
+        k["const_closure(MoveOnly %s)" % lab] = (gcc_pre20, why_copy)
+    for T in ("int", "Counted", "int*"):
+        k["const_closure(%s const T&&)" % T] = (always, why_const)
+        k["const_closure_pointer(%s const T&&)" % T] = (always, why_const)
     for W in ("xtl::xoptional<int&, bool&>", "xtl::xmasked_value<int&, bool&>", "xtl::xcomplex<double&, double&, false>", "xtl::xclosure_pointer<int&>"):
-        k["%s = same type" % W] = (ALL_STD, why_assign)
+        k["%s = same type" % W] = (always, why_assign)
     return k
+
+
+def is_listed(known, eid, cxx, std):
+    return eid in known and known[eid][0](cxx, std)
 
 
 PRELUDE = r'''
